@@ -1,6 +1,8 @@
 #!/bin/bash
-# regenerate gen/Src.v from the current repo sources (used by bin/setup; the check regenerates on every run)
+# regenerate gen/Src.v and gen/PipeFacts.v from the current repo sources (used by bin/setup; the check regenerates on every run)
 cd "$(dirname "$0")"
 mkdir -p gen ../../build/include/rkcommon ../../build/C01/ast
 python3 ../../lib/mkversion.py >/dev/null 2>&1
 python3 ../../tools/c01src/gen_src.py "${VERIF_REPO:-/repo}" ../../build/include gen/Src.v ../../build/C01/ast
+mkdir -p ../../build/C01/pipe/ast
+python3 ../../props/C01/pipe_factgen.py "${VERIF_REPO:-/repo}" ../../build/include gen/PipeFacts.v ../../build/C01/pipe/ast
